@@ -234,6 +234,12 @@ func (r *rateLimiter) DoAcquire(upstream string, acquireRequest *proxyv1alpha1.R
 		return nil, fmt.Errorf("limit store for upstream %s upstream shard %v not found", upstream, shardId)
 	}
 
+	// An instance that acquires is alive: record it in the client cache, so that the timeout
+	// pass finds it (and drops what was counted for it) once it goes silent. Without this, counts
+	// recorded for an instance that is not in the cache (e.g. acquired more than the heartbeat
+	// timeout after its last heartbeat) were never dropped by any cleanup pass.
+	r.clientCache.Heartbeat(acquireRequest.Spec.Instance)
+
 	var resultLogs []string
 	var logging bool
 
